@@ -67,6 +67,7 @@ def jobs(tier, seed):
     L("hmc", d=3, target="gauss", T=1.0, mass="matrix", steps=1200 if q else 6000)
     L("hmc", d=2, target="gauss", T=7.0, mass="vector", bounded=True, steps=1200 if q else 6000, reload=True)
     L("ensemble", d=2, target="gauss", alpha=2.0, steps=500 if q else 2500)
+    L("ensemble", d=3, target="gauss", alpha=2.5, steps=400 if q else 2000, max_attempts=2)   # walkers often exhaust their attempts and must stay put
     L("ensemble", d=4, target="gauss", alpha=3.5, steps=400 if q else 2000, offset=-1e5)
     L("ensemble", d=3, target="banana", alpha=1.4, steps=400 if q else 2000, reload=True)
     # distribution level (regimes with exact attempt weights)
@@ -219,6 +220,8 @@ def build_chain(job, rng, trace, target, scale, law, seed):
             pos = lo + (hi - lo) * rng.uniform(0.05, 0.95, size=(nw, d))
         ch = EnsembleSampler(posterior=trace, starting_positions=pos, alpha=job.get("alpha", 2.0),
                              bounds=(lo, hi) if lo is not None else None, display_progress=False)
+        if job.get("max_attempts"):
+            ch.max_attempts = int(job["max_attempts"])     # public setting (saved with the sampler)
     mc.seed_sampler(ch, seed)
     return ch, info
 
